@@ -27,7 +27,11 @@ var c12Alphabet = []string{"", ".", "..", "a", "b", "ab", "a-b", "a/b", "a/c", "
 	// first bytes below '.', where a root record keyed "." instead of "" would sort wrongly
 	"-a", "-a/x", "-ab", "+", "+/a",
 	// names that merely end in dots
-	"a..", "a../x", "...", ".../x"}
+	"a..", "a../x", "...", ".../x",
+	// a component as long as file systems allow, and one beyond that (length is not the validator's business)
+	c12Long255, "a/" + c12Long255, c12Long255 + "n/x"}
+
+var c12Long255 = strings.Repeat("n", 255)
 
 func shardInfo() (int, int) {
 	sh, _ := strconv.Atoi(os.Getenv("VERIF_SHARD"))
